@@ -247,10 +247,10 @@ def partial_keys(d):
         return []
     labs = _labels(d)
     out = []
-    for f in _fields(d):
-        if f.get("regex"):
-            continue
-        k = dec_key(f)
+    uq = d["spec"].get("unique") or []
+    joint = [x for g in uq for x in (g if isinstance(g, list) else [g])]
+    keys = [dec_key(f) for f in _fields(d) if not f.get("regex")]
+    for k in keys + [G6.dec_label(x) for x in joint]:
         kt = k if isinstance(k, tuple) else (k,)
         if any(len(kt) < len(lab) and lab[:len(kt)] == kt for lab in labs):
             out.append(k)
@@ -259,6 +259,25 @@ def partial_keys(d):
 
 def dec_key(f):
     return G6.dec_label(f.get("key", f["name"]))
+
+
+def all_columns_filtered(d):
+    """strict='filter' and no column of the data is declared in the schema."""
+    import re
+    if d["spec"].get("strict") != "filter" or d["spec"]["kind"] != "frame":
+        return False
+    for lab in _labels(d):
+        for f in _fields(d):
+            k = dec_key(f)
+            if f.get("regex"):
+                try:
+                    if re.search(str(k), str(lab)):
+                        return False
+                except re.error:
+                    return False
+            elif str(k) == str(lab):
+                return False
+    return True
 
 
 def regex_name_shape_mismatch(d):
@@ -453,6 +472,14 @@ def not_judged(d, o):
         # lazy cast "done without .collect()"; a cast that cannot succeed
         # surfaces as a polars error wherever the plan is materialised
         return "polars-schema-only-lazy-cast-fails-when-materialised"
+    if (d["backend"] == "polars" and name == "ShapeError" and mod.startswith("polars")
+            and "larger sample than the total population" in str(e)
+            and call.get("sample") and all_columns_filtered(d)
+            and last == "backends/polars/base.py:subsample"):
+        # a polars frame without columns has no rows: once strict='filter'
+        # removed every column, any sample= is larger than the population
+        # (the same argument error as sample= larger than the frame)
+        return "polars-sample-after-every-column-was-filtered-out"
     return None
 
 
